@@ -138,6 +138,9 @@ def work(item):
             return any(k in kinds for k, _ in f2)
         small = shrink(acts, still)
         f2, _, n2 = judge(small)
+        if not f2:                      # not reproducible on the shrunk history: report the original
+            small = acts
+            f2, _, n2 = fails, eng, nodes
         feats = features(n2)
         klass = None
         if all(k == "union" for k, _ in f2):
@@ -195,7 +198,9 @@ def run(ctx):
         for k, t in fails[:1]:
             ctx.violation(t, {"history": acts}, klass=None)
         return
-    results = pl.pmap(work, items, jobs=12, chunksize=2)
+    ctx.log("proofs checked; running %d histories" % nh)
+    results = pl.pmap(work, items, jobs=4, chunksize=4)
+    ctx.log("implementation runs done")
     cases, metas = [], []
     for it, r in zip(items, results):
         st = r["stats"]
@@ -224,6 +229,7 @@ def run(ctx):
         ctx.broken.append("correspondence:ClauseDB model does not evaluate")
         ctx.notes.append(str(e))
         return
+    ctx.log("model evaluated on %d paths" % len(cases))
     ctx.cov["model_vs_impl_paths"] = len(cases)
     ctx.cov["model_vs_impl_agree"] = len(cases) - len(bad)
     for i in bad[:5]:
